@@ -45,12 +45,12 @@ CLAIMED.update({
    note=COMMON_NOTE + 'Totality in the model is Gallina termination; real thread liveness and socketserver.handle_error are runtime residue.',
    design='§7 C05'),
  'C07': dict(
-   technique='Coq frame/projection theorems over the transfer registry + in-process interleavings + real threaded UDP tier',
+   technique='Coq frame/projection theorems over the transfer registry + Coq small-step interleaving model of the registry as a concurrent object (listener, reaper, N sub-server threads: lock discipline, no deadlock, listener progress) + in-process interleavings + scheduler-shim differential check + real threaded UDP tier',
    text='Theorems (bookkeeping logic, any number of transfers, every interleaving): events for transfer a leave b untouched; the projection of a '
-        'global run on a equals a solo run, so C01 applies to each; accepting a request never alters a running transfer. Tie: 2-6 real '
+        'global run on a equals a solo run, so C01 applies to each; accepting a request never alters a running transfer; the registry as a CONCURRENT object (every interleaving of the listener in add, the reaper in run and any number of sub-server threads, at the granularity of one lock / dictionary / flag operation): the table is touched and iterated only by the lock holder, no reachable state is a deadlock, the listener is blocked only for the rest of the holder s section (add completes after boundedly many fair rounds), add never leaves two live transfers for one TID. Tie: digests and lock-placement facts of TFTPSubServers regenerated from the source; the real TFTPSubServers under a deterministic scheduler shim vs the extracted model; 2-6 real '
         'in-process transfers under seeded interleavings vs the extracted model; runtime tier with real threads and loopback UDP '
         '(stalling / vanishing / erroring clients, latency of a fresh request).',
-   note=COMMON_NOTE + 'PARTIAL by nature: pre-emptive interleaving inside handlers, the GIL, lock contention and OS ports are not modelled; only observed by the real-UDP tier.',
+   note=COMMON_NOTE + 'PARTIAL: progress statements assume weak fairness and that thread.join does not time out; pre-emption INSIDE a handler (below one primitive operation), the GIL and OS port allocation are not modelled and only observed by the real-UDP tier.',
    design='§7 C07'),
  'C08': dict(
    technique='Coq proof over a staged model of negotiate (names, values, ranges) + exhaustive subsets/orders differential check',
@@ -62,13 +62,13 @@ CLAIMED.update({
    note=COMMON_NOTE + 'float(str) is not modelled: the model takes int(float(v)*1e9) as an input and the theorems quantify over it.',
    design='§7 C08'),
  'C09': dict(
-   technique='Coq proof over the timeout state machine and registry + virtual-clock differential check + real-server resource accounting',
+   technique='Coq proof over the timeout state machine and registry + Coq small-step interleaving model of the registry (a finished transfer is reaped, close drains) + virtual-clock and scheduler-shim differential checks + real-server resource accounting',
    text='Theorems: after more than six timeouts of silence the next tick marks the transfer done (any timeout, any silence point); nothing is '
         're-sent before one timeout has passed since the last send and last datagram, and the unacknowledged block is re-sent at the first tick '
         'after; client ERROR / completion / server error end the transfer; the reaper removes exactly finished transfers; closing empties the '
-        'registry; refusals register nothing. Tie: silence/ERROR/garbage scenarios on a virtual clock vs the extracted model; real threaded '
+        'registry; refusals register nothing; in the CONCURRENT registry model (listener, reaper, N sub-server threads, every interleaving) a transfer whose done flag is set is removed within a number of fair rounds given by an explicit measure, after which its thread has returned, its source is closed and its TID is gone for good; after close() the table is empty and every sub-server thread has returned and is closed; no deadlock. Tie: silence/ERROR/garbage scenarios on a virtual clock vs the extracted model; real threaded '
         'server: threads, descriptors and registry back to baseline after completed, abandoned, errored and refused requests and after close.',
-   note=COMMON_NOTE + 'PARTIAL: real thread join, socket close and finalisation of refused requests are runtime residue observed by the real-UDP tier.',
+   note=COMMON_NOTE + 'PARTIAL: progress assumes weak fairness and that thread.join(timeout=10) does not expire (if it did, _remove raises and the reaper thread dies: an observation, see DESIGN §10); OS-level release of sockets / descriptors and finalisation of refused requests are runtime residue observed by the real-UDP tier (simple server and BootServer over FAT images).',
    design='§7 C09'),
 })
 
